@@ -98,6 +98,7 @@ func runC07(t *testing.T, env core.Env, rep *core.Report) {
 				mark(fmt.Sprintf("class=explore kind=%s events=%s", sc.Name, evs(hist)))
 				out := Run(t, sc, hist, true, 2)
 				rep.Executions++
+				detcheck(t, rep, sc, hist, out)
 				k := out.Key + fmt.Sprint(" misbehaved=", out.Misbehaved)
 				if seen[k] {
 					continue
